@@ -10,7 +10,8 @@ STYLES = ['canon', 'lf', 'nospace', 'xspace', 'lower', 'upper', 'fold', 'dup',
           'empty', 'obstext', 'junkline', 'biglf']
 FRAMINGS = ['cl', 'cl0', 'chunked1', 'chunked_ext', 'chunked_lf', 'close',
             'overrun', 'n204', 'n304', 'n304cl', 'headcl', 'headte', 'te_cl',
-            'http10', 'connclose', 'badcl', 'n404', 'n205chunked', 'n205cl', 'overrun_resp']
+            'http10', 'connclose', 'badcl', 'n404', 'n205chunked', 'n205cl', 'overrun_resp',
+            'chunked_uc', 'chunked_ows']
 BODIES = ['text', 'empty', 'binary', 'gzip', 'deflate', 'rawdeflate', 'mime']
 
 BODY_BYTES = {
@@ -149,6 +150,15 @@ def make(style, framing, body):
         parts = [p for p in (wire[:h], wire[h:]) if p]
         payload = b''.join(chunk(p, b';ext=1;q="a b"') for p in parts) + \
             b'0;last\r\nX-Trailer: t1\r\nX-T2:t2\r\n\r\n'
+    elif framing == 'chunked_uc':
+        # transfer-coding names are case-insensitive (RFC 7230 section 4)
+        fields.append(('Transfer-Encoding', 'Chunked'))
+        payload = (chunk(wire) if wire else b'') + b'0\r\n\r\n'
+    elif framing == 'chunked_ows':
+        fields.append(('Transfer-Encoding', 'CHUNKED '))
+        h = len(wire) // 2
+        parts = [p for p in (wire[:h], wire[h:]) if p]
+        payload = b''.join(chunk(p) for p in parts) + b'0\r\nX-Trailer: t1\r\n\r\n'
     elif framing == 'chunked_lf':
         fields.append(('Transfer-Encoding', 'chunked'))
         payload = (chunk(wire, eol=b'\n') if wire else b'') + b'0\n\n'
